@@ -11,7 +11,7 @@ RULE = ("random trees with all combinations of preference xattrs (trusted/user p
 
 
 def gen(rng, tier):
-    return _kill.gen(rng, tier, PROP, [("base", 100)])
+    return _kill.gen(rng, tier, PROP, [("base", 90), ("stale", 10)])
 
 
 def nontrivial(s, t, v):
